@@ -18,6 +18,7 @@ from ..core import (
     ContainerValueMixin,
     Field,
     Schema,
+    copy_basic_value,
     isconfigtype,
 )
 
@@ -160,10 +161,10 @@ class ListField(Field):
     def __setdefault__(self, cfg: Config) -> None:
         default = self.default
         if isinstance(default, list):
+            # nested lists and dicts belong to the configuration as well
+            default = copy_basic_value(default)
             if self.field:
                 default = ListProxy(cfg, self, default)
-            else:
-                default = list(default)
         cfg._set_default_value(self._key, default)
 
     def _validate(self, cfg: Config, value: list) -> Union[list, ListProxy]:
